@@ -292,16 +292,26 @@ def unparse(v):
 
 def tree_size(v):
     if v[0] == "L":
-        return 1 + len(v[1])
+        return 1 + (0 if v[1] == "Z" else len(v[1]))
     if v[0] == "A":
         return 2 + sum(tree_size(x) for x in v[1])
     return 2 + sum(len(k) + tree_size(x) for k, x in v[1])
 
 
 def shrink_leaf(t):
-    """smaller variants of a leaf token"""
+    """smaller / more canonical variants of a leaf token (Z = null is the smallest value)"""
     out = []
-    if t.startswith("S:") or t.startswith("K:"):
+    if t.startswith("K:"):
+        h = t[2:]
+        for i in range(0, len(h), 2):
+            out.append(t[:2] + h[:i] + h[i + 2:])
+        for i in range(0, len(h), 2):
+            if h[i:i + 2] not in ("61", "00", "22", "5c"):
+                out.append(t[:2] + h[:i] + "61" + h[i + 2:])
+        return out
+    if t != "Z":
+        out.append("Z")
+    if t.startswith("S:"):
         h = t[2:]
         for i in range(0, len(h), 2):
             out.append(t[:2] + h[:i] + h[i + 2:])
@@ -309,7 +319,12 @@ def shrink_leaf(t):
             if h[i:i + 2] not in ("61", "00", "22", "5c"):
                 out.append(t[:2] + h[:i] + "61" + h[i + 2:])
     elif "@" in t:
-        out.append(t.split("@")[0])
+        body, src = t.split("@")
+        out.append(body)
+        if body != "Ii32:0":
+            out.append("Ii32:0@" + src)
+        if src != "31":
+            out.append(body + "@31")
     elif t.startswith("I"):
         k, v = t[1:].split(":")
         v = int(v)
@@ -385,7 +400,7 @@ def shrink_case(case, fails_batch, rounds=40, width=80):
     for _ in range(rounds):
         cands = []
         for cand in variants(tree):
-            if tree_size(cand) < tree_size(tree) or (cand[0] == "L" and cand != tree):
+            if tree_size(cand) < tree_size(tree):
                 cands.append(cand)
             if len(cands) >= width:
                 break
